@@ -181,6 +181,8 @@ func (t *HtmlScanner) readText() (tok *Token, err error) {
 						// tagBuf =</script>
 						// after Truncate: textBuf=a
 						textBuf.Truncate(textBuf.Len() + 1 - tagBuf.Len())
+						// 闭合标签名保持源码中的写法(如 </SCRIPT>), 不使用小写化后的开始标签名
+						written := strings.TrimSuffix(strings.TrimPrefix(nameBuf.String(), "</"), ">")
 						if textBuf.Len() == 0 { // <script></script>: 没有文本内容 直接返回闭合标签
 							t.state = stateInit
 							return t.addToken(&Token{
@@ -188,7 +190,7 @@ func (t *HtmlScanner) readText() (tok *Token, err error) {
 								Value: tagBuf.String(),
 								Start: end,
 								End:   t.pos,
-								Tag:   newCloseTag(tagName),
+								Tag:   newCloseTag(written),
 							}), nil
 						}
 						textToken := t.addToken(&Token{
@@ -202,7 +204,7 @@ func (t *HtmlScanner) readText() (tok *Token, err error) {
 							Value: tagBuf.String(),
 							Start: end,
 							End:   t.pos,
-							Tag:   newCloseTag(tagName),
+							Tag:   newCloseTag(written),
 						}
 						t.nextToken = tagToken
 						t.state = stateInit
